@@ -1090,6 +1090,49 @@ def r14r(ctx, rep, rule="R14r"):
         "store of %acc copies it, and eq? on it is false", bad)
     rep.floor(rule, "writes of %acc in run_one", n, 7)
 
+
+def r14s(ctx, rep, rule="R14s"):
+    """eqv? tells two strings apart by where they are, not by what they hold"""
+    facts = ctx["facts"]
+    rep.rule(rule, "a string is an object with a location: (eqv? (string #\\a) (string #\\a)) is #f (R7RS 6.1), mutating one of two "
+             "strings must not change whether they are eqv?, and memq / assq / case find a string only where that very string is. "
+             "In Vm::eqv the arm for two strings therefore compares their locations (Rc::ptr_eq); it applies no comparison of "
+             "contents (PartialEq of the Rc / RefCell / String).")
+    f = need(rep, rule, facts, "marwood::vm::compare::<impl marwood::vm::Vm>::eqv")
+    if f is None:
+        return
+    # the (String, String) arm: blocks under the String target of a switch on the left operand's discriminant and, inside it, of the right one's
+    sws = disc_switches(facts, f, "marwood::vm::vcell::VCell")
+    region = None
+    for sw in sws:
+        r = arm_region(f, sw, "String")
+        if r:
+            inner = [s2 for s2 in sws if s2["bb"] in r and "String" in s2["arms"]]
+            if inner:
+                r2 = arm_region(f, inner[0], "String")
+                region = (r & r2) if r2 else None
+                if region:
+                    break
+    key = rule + "|eqv|String,String"
+    if not region:
+        rep.anchor_lost(rule, "the (String, String) arm of Vm::eqv")
+        return
+    content, ident = [], []
+    for bb, t in f.calls():
+        if bb not in region:
+            continue
+        c = callee(t) or ""
+        fa = t.get("fnargs") or ""
+        if c.endswith("::ptr_eq"):
+            ident.append(t["loc"])
+        elif "PartialEq" in c or "PartialEq" in fa:
+            content.append(t["loc"])
+    ok = bool(ident) and not content
+    (rep.ok if ok else rep.fail)(
+        rule, key, "eqv compares two strings by location (Rc::ptr_eq)" if ok else
+        "eqv compares two strings by their contents (PartialEq on the shared string): two distinct strings that spell the same are "
+        "eqv? / eq?, memq and assq find a string that is merely spelled alike, and mutating one of them changes the answer", content or [f.span])
+
 def run(ctx, rep):
     r14a(ctx, rep)
     r14b(ctx, rep)
@@ -1106,6 +1149,7 @@ def run(ctx, rep):
     r14o(ctx, rep)
     r14q(ctx, rep)
     r14r(ctx, rep)
+    r14s(ctx, rep)
     from . import popbalance
     popbalance.r_arity_table(ctx, rep, "R14n", R7RS_ARITY_C14, "the list and vector procedures C14 names")
     from .C15 import fresh_results
